@@ -7,29 +7,34 @@ From PPV Require Import Base.QN C23.Model C23.Proofs.
 Import ListNotations.
 Open Scope Q_scope.
 
-(* replace_line_by_impedance as it is in /repo, under G23a (line index = 0..n-1 in order, i.e. labels = positions) *)
-Theorem C23_line_to_impedance_equiv_partial : forall tab sn idx l m,
-  G23a tab = true -> by_label tab idx = Some l -> line_to_imp tab sn idx = Ok m ->
-  ~ vn l == 0 -> ~ sn == 0 -> ~ par l == 0 ->
-  z_imp_r m (vn l) == z_line_r l /\ z_imp_x m (vn l) == z_line_x l.
-Proof. exact line_to_imp_partial. Qed.
-Print Assumptions C23_line_to_impedance_equiv_partial.
-(* without the guard: the positional arrays are read at the label *)
-Theorem C23_line_to_impedance_equiv_refuted :
-  exists tab sn idx l m, by_label tab idx = Some l /\ line_to_imp tab sn idx = Ok m /\ ~ z_imp_r m (vn l) == z_line_r l.
-Proof. exact line_to_imp_refuted. Qed.
-Print Assumptions C23_line_to_impedance_equiv_refuted.
-Theorem C23_line_to_impedance_index_error :
-  exists tab sn idx, by_label tab idx <> None /\ line_to_imp tab sn idx = Err "IndexError".
-Proof. exact line_to_imp_index_error. Qed.
-Print Assumptions C23_line_to_impedance_index_error.
-(* the label-based conversion (the proposed repair) is correct for every index *)
-Theorem C23_label_conversion_preserves : forall tab sn idx l m,
-  by_label tab idx = Some l -> line_to_imp_label tab sn idx = Ok m ->
+(* replace_line_by_impedance as it is in /repo (after "fix: replace_line_by_impedance takes parallel and length_km from the
+   line's own row"): for EVERY line index (shuffled, gapped) the created impedance has the series impedance of the line *)
+Theorem C23_line_to_impedance_equiv : forall tab sn idx l m,
+  by_label tab idx = Some l -> line_to_imp tab sn idx = Ok m ->
   ~ vn l == 0 -> ~ sn == 0 -> ~ par l == 0 ->
   z_imp_r m (vn l) == z_line_r l /\ z_imp_x m (vn l) == z_line_x l.
 Proof. exact label_conversion_preserves. Qed.
-Print Assumptions C23_label_conversion_preserves.
+Print Assumptions C23_line_to_impedance_equiv.
+Example C23_line_to_impedance_equiv_nonvacuous :
+  exists l m, by_label w_tab 1%Z = Some l /\ line_to_imp w_tab 1 1%Z = Ok m /\ z_imp_r m (vn l) == z_line_r l.
+Proof. eexists. eexists. split; [reflexivity|]. split; [reflexivity|]. vm_compute. reflexivity. Qed.
+Print Assumptions C23_line_to_impedance_equiv_nonvacuous.
+(* the rule before the repair read the positional arrays parallel/length_km at the line LABEL: correct only under G23a
+   (line index = 0..n-1 in order), wrong values or IndexError otherwise (regression witnesses) *)
+Theorem C23_line_to_impedance_old_equiv_partial : forall tab sn idx l m,
+  G23a tab = true -> by_label tab idx = Some l -> line_to_imp_old tab sn idx = Ok m ->
+  ~ vn l == 0 -> ~ sn == 0 -> ~ par l == 0 ->
+  z_imp_r m (vn l) == z_line_r l /\ z_imp_x m (vn l) == z_line_x l.
+Proof. exact line_to_imp_partial. Qed.
+Print Assumptions C23_line_to_impedance_old_equiv_partial.
+Theorem C23_line_to_impedance_old_equiv_refuted :
+  exists tab sn idx l m, by_label tab idx = Some l /\ line_to_imp_old tab sn idx = Ok m /\ ~ z_imp_r m (vn l) == z_line_r l.
+Proof. exact line_to_imp_refuted. Qed.
+Print Assumptions C23_line_to_impedance_old_equiv_refuted.
+Theorem C23_line_to_impedance_old_index_error :
+  exists tab sn idx, by_label tab idx <> None /\ line_to_imp_old tab sn idx = Err "IndexError".
+Proof. exact line_to_imp_index_error. Qed.
+Print Assumptions C23_line_to_impedance_old_index_error.
 Theorem C23_impedance_to_line_equiv : forall m v i,
   ~ isn m == 0 -> z_line_r (imp_to_line m v i) == z_imp_r m v /\ z_line_x (imp_to_line m v i) == z_imp_x m v.
 Proof. exact imp_to_line_preserves. Qed.
